@@ -17,7 +17,10 @@ Inductive nexp :=
 | NVar                 (* the variable of the enclosing `let` *)
 | NWsLimit             (* WHITESPACE_LIMIT *)
 | NLit (n : nat)
-| NSub (a b : nexp).
+| NSub (a b : nexp)
+| NFold                (* the value bound by `if let Some(x) = x` for the folded minimum / maximum *)
+| NLeftB               (* refset.leftmost().unwrap().begin() *)
+| NRightE.             (* refset.rightmost().unwrap().end() *)
 
 Inductive bexp :=
 | BTrue | BFalse
@@ -27,6 +30,8 @@ Inductive bexp :=
 | BAnd (a b : bexp) | BOr (a b : bexp) | BNot (a : bexp)
 | BIf (c t e : bexp)
 | BLet (v : nexp) (body : bexp)
+| BSomeEqFold (a : nexp)      (* Some(a) == <the folded minimum / maximum> *)
+| BIfFold (t e : bexp)       (* if let Some(x) = <the folded value> { t } else { e } *)
 | BTextWs (a b : nexp). (* if let Ok(gap) = resource.text_by_offset(&Offset::simple(a, b))
                             { gap.chars().all(|c| c.is_whitespace()) } else { false } *)
 
@@ -69,6 +74,9 @@ Section Eval.
   Variable ws : list bool.
   Variable o : op.
   Variables s r : ts.
+  (* only in the tests against a set: the folded value (None before the first member), the begin of
+     refset.leftmost() and the end of refset.rightmost() (None = the set is empty: unwrap() panics) *)
+  Variables fold lmb rme : option nat.
 
   (* resource.text_by_offset(Offset::simple(b, e)) is Ok (b <= e <= length) and all of it whitespace *)
   Definition text_ws (b e : nat) : bool :=
@@ -86,6 +94,9 @@ Section Eval.
         | Some x, Some y => if y <=? x then Some (x - y) else None
         | _, _ => None
         end
+    | NFold => fold
+    | NLeftB => lmb
+    | NRightE => rme
     end.
 
   Definition cmp2 (f : nat -> nat -> bool) (x y : option nat) : option bool :=
@@ -104,6 +115,12 @@ Section Eval.
     | BNot a => option_map negb (eval_b var a)
     | BIf c t e => match eval_b var c with Some true => eval_b var t | Some false => eval_b var e | None => None end
     | BLet v body => match eval_n var v with Some x => eval_b (Some x) body | None => None end
+    | BSomeEqFold a =>
+        match eval_n var a with
+        | Some x => Some (match fold with Some y => Nat.eqb x y | None => false end)
+        | None => None
+        end
+    | BIfFold t e => match fold with Some _ => eval_b var t | None => eval_b var e end
     | BTextWs a b => cmp2 text_ws (eval_n var a) (eval_n var b)
     end.
 End Eval.
@@ -114,11 +131,71 @@ Definition toggle (o : op) : op := mkop (orel o) (oall o) (negb (oneg o)) (olim 
    underflowing subtraction, or a negation arm whose toggled operator lands on a negation arm again *)
 Definition interp_pair (arms : list parm) (ws : list bool) (o : op) (s r : ts) : option bool :=
   match find_arm arms o with
-  | Some (PExpr b) => eval_b ws o s r None b
+  | Some (PExpr b) => eval_b ws o s r None None None None b
   | Some PToggle =>
       match find_arm arms (toggle o) with
-      | Some (PExpr b) => option_map negb (eval_b ws (toggle o) s r None b)
+      | Some (PExpr b) => option_map negb (eval_b ws (toggle o) s r None None None None b)
       | _ => None
       end
+  | None => None
+  end.
+
+(** * TextSelection::test_set: one selection against a set *)
+
+Inductive sstmt :=
+| SAny           (* for reftextsel in refset.iter() { if self.test(operator, reftextsel, resource) { return true; } } false *)
+| SAllNonEmpty   (* if refset.is_empty() { return false; } for .. { if !self.test(..) { return false; } } true *)
+| SNonEmpty (b : bexp)       (* if refset.is_empty() { return false; } <expression> *)
+| SFoldMinBegin (b : bexp)   (* ... let mut m = None; for other in refset.iter() { if m.is_none() || other.begin < m.unwrap() { m = Some(other.begin); } } <expression> *)
+| SFoldMaxEnd (b : bexp)     (* ... the same with other.end > m.unwrap() *)
+| SToggle.                   (* !self.test_set(&operator.toggle_negate(), refset, resource) *)
+
+Record sarm := mksarm { sa_pats : list ppat; sa_body : sstmt }.
+
+Fixpoint find_sarm (arms : list sarm) (o : op) : option sstmt :=
+  match arms with
+  | [] => None
+  | a :: arms' => if existsb (fun p => pat_matches p o) (sa_pats a) then Some (sa_body a) else find_sarm arms' o
+  end.
+
+(* a loop with an early return over tests that may fail *)
+Fixpoint any_opt (f : ts -> option bool) (l : list ts) : option bool :=
+  match l with
+  | [] => Some false
+  | x :: l' => match f x with Some true => Some true | Some false => any_opt f l' | None => None end
+  end.
+Fixpoint all_opt (f : ts -> option bool) (l : list ts) : option bool :=
+  match l with
+  | [] => Some true
+  | x :: l' => match f x with Some true => all_opt f l' | Some false => Some false | None => None end
+  end.
+
+Definition fold_min_begin (l : list ts) : option nat :=
+  fold_left (fun m y => match m with None => Some (tb y) | Some v => if tb y <? v then Some (tb y) else Some v end) l None.
+Definition fold_max_end (l : list ts) : option nat :=
+  fold_left (fun m y => match m with None => Some (te y) | Some v => if v <? te y then Some (te y) else Some v end) l None.
+
+Definition is_nil' {X} (l : list X) : bool := match l with [] => true | _ => false end.
+
+Definition run_stmt (parms : list parm) (ws : list bool) (o : op) (s : ts) (B : tset) (st : sstmt) : option bool :=
+  let lmb := option_map tb (leftmost B) in
+  let rme := option_map te (rightmost B) in
+  match st with
+  | SAny => any_opt (interp_pair parms ws o s) (items B)
+  | SAllNonEmpty => if is_nil' (items B) then Some false else all_opt (interp_pair parms ws o s) (items B)
+  | SNonEmpty b => if is_nil' (items B) then Some false else eval_b ws o s s None lmb rme None b
+  | SFoldMinBegin b => if is_nil' (items B) then Some false else eval_b ws o s s (fold_min_begin (items B)) lmb rme None b
+  | SFoldMaxEnd b => if is_nil' (items B) then Some false else eval_b ws o s s (fold_max_end (items B)) lmb rme None b
+  | SToggle => None
+  end.
+
+Definition interp_ts_set (parms : list parm) (arms : list sarm) (ws : list bool) (o : op) (s : ts) (B : tset) : option bool :=
+  match find_sarm arms o with
+  | Some SToggle =>
+      match find_sarm arms (toggle o) with
+      | Some SToggle | None => None
+      | Some st => option_map negb (run_stmt parms ws (toggle o) s B st)
+      end
+  | Some st => run_stmt parms ws o s B st
   | None => None
   end.
